@@ -176,6 +176,11 @@ class ApplicationPartPut(ApplicationBase):
                 isinstance(item, storage.BaseCollection) or
                 not parent_item.tag)
 
+            if write_whole_collection and not pathutils.strip_path(path):
+                # The root collection holds the principal collections, it
+                # can't be replaced by a calendar or an address book
+                return httputils.FORBIDDEN
+
             if write_whole_collection:
                 tag = prepared_tag
             else:
